@@ -50,3 +50,18 @@ Theorem C06_copy_line_alone_stale_refuted : exists b1 b2 d, wf b1 /\ wf b2 /\
   run_raw 1 empty_pst b1 121 d <> run_raw 1 empty_pst b2 121 d.
 Proof. exact copy_line_alone_stale. Qed.
 Print Assumptions C06_copy_line_alone_stale_refuted.
+
+(* Padding / CR-LF, buffer level (partial): a line without its trailing blanks, with k trailing blanks, or with CR before
+   the LF fills the record buffer with the same bytes up to blank <-> terminator (LF, CR, NUL) substitutions - `norm` maps
+   the three terminators to a blank - whatever the buffer held before, and leaves the same rest of the stream.
+   MISSING for the full C06_padding_irrelevant: that every field reader (read_string, read_int, read_seq_id, single
+   columns) treats a terminator at those positions like a blank; this link is checked by correspondence (recs) and by the
+   o_pad / o_rt / o_file oracles on gemmi, not proved. *)
+Theorem C06_padding_same_buffer_partial : forall c k cr rest size buf1 buf2 b1 l1 r1 b2 l2 r2,
+  wf buf1 -> wf buf2 -> (size <= 121)%nat -> plain c -> (cr = [] \/ cr = [13]) ->
+  (S (length c + k + length cr) < size)%nat ->
+  next_line buf1 size (c ++ 10 :: rest) = Some (b1, l1, r1) ->
+  next_line buf2 size ((c ++ repeat 32 k ++ cr) ++ 10 :: rest) = Some (b2, l2, r2) ->
+  norm b1 = norm b2 /\ r1 = r2.
+Proof. exact padding_same_buffer. Qed.
+Print Assumptions C06_padding_same_buffer_partial.
